@@ -1,6 +1,6 @@
 (* KvDbProofs.v — C09, part 2: the key-value store operations and their DbImpl users
    (insert_key_value, insert_or_replace_key_value, remove_keys, remove_all_values, insert_kvs_new, insert_kvs_replace). *)
-From Agdb Require Import Bytes DbValue Graph DbModel Search Queries DbValueProofs DbFrameProofs KvProofs.
+From Agdb Require Import Bytes DbValue Graph DbModel Search Queries DbValueEqProofs DbFrameProofs KvProofs.
 From Coq Require Import ZifyBool ZifyNat ZifyN.
 Open Scope Z_scope.
 
